@@ -2,10 +2,13 @@
    Everything is proved for an arbitrary regex engine (Section variables valid / matches).
 
    The central statement is proved once, in a form that covers both uses:
-     for every quirk vector q, configuration c and file f such that EACH quirk is either switched off
-     or cannot bear on (c, f), the model's outcome is the specification's outcome.
-   Switching all flags off gives the main theorem; leaving them on gives the confinement theorem for the
-   faithful model (exact outside the four defect classes). *)
+     for every quirk vector q, configuration c and file f such that each remaining quirk (global lists on
+     covered files, depth of trailing-slash keys) is either switched off or cannot bear on (c, f), the
+     model's outcome is the specification's outcome.
+   Switching both off gives the main theorem; leaving them on gives the confinement theorem for the
+   faithful model.  The three quirks repaired in /repo (bare prefix, cwd-relative paths, dict allow items)
+   now read their form from the generated layer, and need no hypothesis: the form found in the source is
+   proved to be the property's (prefix_test_ideal, eff_path_relpath, v_aitem_pattern). *)
 From Coq Require Import ZArith.
 From TL Require Import Lib.Base Lib.GenTypes Model.PlacementTypes Gen.PlacementGen Model.Placement
      Proofs.PlacementStrings.
@@ -14,7 +17,8 @@ From TL Require Import Lib.Base Lib.GenTypes Model.PlacementTypes Gen.PlacementG
 (* the literals the proofs below rely on, as found in the source on this run *)
 Lemma gen_facts_matcher :
   fp_root_key = "/" /\ fp_root_key2 = "/" /\ fp_root_notin = "/" /\ fp_root_depth = 0%Z /\
-  fp_best_init = (-1)%Z /\ fp_best_cmp = CGt /\ fp_split_sep = "/"%char /\ fp_prefix_method = "startswith" /\ fp_path_sep = "/".
+  fp_best_init = (-1)%Z /\ fp_best_cmp = CGt /\ fp_split_sep = "/"%char /\ fp_prefix_method = "startswith" /\ fp_path_sep = "/" /\
+  fp_prefix_form = PfRstripSep "/"%char "/" /\ fp_relative_resolved = true.
 Proof. repeat split; reflexivity. Qed.
 
 Lemma gen_facts_checker :
@@ -32,34 +36,18 @@ Proof. repeat split; reflexivity. Qed.
 
 Lemma gen_facts_regex :
   fp_match_flags = ["IGNORECASE"] /\ fp_match_methods = ["search"; "search"] /\ fp_pattern_key = "pattern" /\
-  fp_reason_keys = ["reason"; "message"] /\ fp_rule_id = "file-placement" /\ fp_line = 1 /\ fp_column = 0.
+  fp_reason_keys = ["reason"; "message"] /\ fp_rule_id = "file-placement" /\ fp_line = 1 /\ fp_column = 0 /\
+  fp_allow_dict_supported = true.
 Proof. repeat split; reflexivity. Qed.
 
 (* ---------------------------------------------------------------- where a quirk cannot bear on the input *)
-Definition is_astr (a : aitem) : bool := match a with AStr _ => true | ADict _ => false end.
-Definition rule_plain (r : drule) : bool := match r_allow r with Some l => forallb is_astr l | None => true end.
-
-(* no allow item is written as a {pattern: ...} dict *)
-Definition no_adict (c : config) : bool :=
-  forallb (fun dr => rule_plain (snd dr)) (dirs_of c) && match c_gpat c with Some g => rule_plain g | None => true end.
-
-(* no directory key is a bare string prefix of the path without being a containing directory *)
-Definition key_clean (d p : string) : bool :=
-  String.eqb d "/" || Bool.eqb (starts_with d p) (starts_with (rstrip_slash d ++ "/") p).
 (* the key is written without a trailing slash *)
 Definition key_plain (d : string) : bool := String.eqb (rstrip_slash d) d.
 Definition no_trailing_slash (c : config) : bool := forallb (fun dr => key_plain (fst dr)) (dirs_of c).
-Definition no_bare_prefix (c : config) (p : string) : bool := forallb (fun dr => key_clean (fst dr) p) (dirs_of c).
-
-(* the path is handed over absolute or relative to the project root itself *)
-Definition presented_from_root (f : fileq) : bool := negb (f_relative f) || String.eqb (f_cwd f) "".
 
 Definition is_none {A} (o : option A) : bool := match o with None => true | Some _ => false end.
 
-Definition adict_ok (q : pquirks) (c : config) : bool := negb (q_allow_dict_unsupported q) || no_adict c.
-Definition prefix_ok (q : pquirks) (c : config) (p : string) : bool := negb (q_prefix_without_separator q) || no_bare_prefix c p.
 Definition depth_ok (q : pquirks) (c : config) : bool := negb (q_trailing_slash_depth q) || no_trailing_slash c.
-Definition cwd_ok (q : pquirks) (f : fileq) : bool := negb (q_path_relative_to_cwd q) || presented_from_root f.
 
 Section Engine.
   Variable valid : string -> bool.
@@ -76,24 +64,27 @@ Section Engine.
   Definition depthZ (d : string) : Z :=
     if String.eqb d "/" then 0%Z else Z.of_nat (S (count_char "/" (rstrip_slash d))).
 
+  (* the prefix test found in the source is the property's containment test (fix a23cd20) *)
+  Lemma prefix_test_ideal q d p : prefix_test q d p = starts_with (rstrip_slash d ++ "/") p.
+  Proof.
+    unfold prefix_test, code_prefix_test. change fp_prefix_form with (PfRstripSep "/"%char "/").
+    destruct (q_prefix_without_separator q); reflexivity.
+  Qed.
+
   Lemma check_path_match_contains q d p :
-    negb (q_prefix_without_separator q) || key_clean d p = true ->
     negb (q_trailing_slash_depth q) || key_plain d = true ->
     check_path_match q d p = if contains d p then Some (depthZ d) else None.
   Proof.
-    intros Hq Ht.
+    intros Ht.
     assert (Hd : (if q_trailing_slash_depth q then d else rstrip_slash d) = rstrip_slash d).
     { destruct (q_trailing_slash_depth q); [|reflexivity]. cbn [negb orb] in Ht. unfold key_plain in Ht.
       apply String.eqb_eq in Ht. congruence. }
-    unfold check_path_match, contains, depthZ, prefix_test.
+    unfold check_path_match, contains, depthZ. rewrite prefix_test_ideal.
     change fp_root_key with "/". change fp_root_key2 with "/". change fp_root_notin with "/".
     change fp_root_depth with 0%Z. change fp_split_sep with "/"%char.
     destruct (String.eqb d "/") eqn:Ed.
     - cbn [andb]. destruct (str_contains "/" p); reflexivity.
-    - rewrite Hd, split_on_length.
-      destruct (q_prefix_without_separator q) eqn:Eq; [|reflexivity].
-      cbn [negb orb] in Hq. unfold key_clean in Hq. rewrite Ed in Hq. cbn [orb] in Hq.
-      apply Bool.eqb_prop in Hq. rewrite Hq. reflexivity.
+    - rewrite Hd, split_on_length. reflexivity.
   Qed.
 
   Lemma depthZ_nonneg d : (0 <= depthZ d)%Z.
@@ -122,38 +113,33 @@ Section Engine.
     end.
 
   Lemma find_loop_spec q p dirs : forall best bd,
-    forallb (fun dr => negb (q_prefix_without_separator q) || key_clean (fst dr) p) dirs = true ->
     forallb (fun dr => negb (q_trailing_slash_depth q) || key_plain (fst dr)) dirs = true ->
     loop_inv p best bd ->
     find_loop q p dirs best bd = spec_rule_loop p dirs best.
   Proof.
-    induction dirs as [|[d r] rest IH]; intros best bd Hk Ht Hinv; [reflexivity|].
-    cbn [forallb fst] in Hk. apply andb_true_iff in Hk. destruct Hk as [Hk1 Hk2].
+    induction dirs as [|[d r] rest IH]; intros best bd Ht Hinv; [reflexivity|].
     cbn [forallb fst] in Ht. apply andb_true_iff in Ht. destruct Ht as [Ht1 Ht2].
-    cbn [find_loop spec_rule_loop]. rewrite (check_path_match_contains q d p Hk1 Ht1).
+    cbn [find_loop spec_rule_loop]. rewrite (check_path_match_contains q d p Ht1).
     destruct (contains d p) eqn:Ec; [|apply IH; assumption].
     change fp_best_cmp with CGt. cbn [cmp_Z].
     destruct best as [[b rb]|]; cbn [loop_inv] in Hinv.
     - destruct Hinv as [-> Hb]. rewrite (depth_vs_length b d p Hb Ec).
       destruct (String.length (rstrip_slash b) <? String.length (rstrip_slash d)).
-      + apply IH; [exact Hk2|exact Ht2|]. cbn [loop_inv]. split; [reflexivity|exact Ec].
-      + apply IH; [exact Hk2|exact Ht2|]. cbn [loop_inv]. split; [reflexivity|exact Hb].
+      + apply IH; [exact Ht2|]. cbn [loop_inv]. split; [reflexivity|exact Ec].
+      + apply IH; [exact Ht2|]. cbn [loop_inv]. split; [reflexivity|exact Hb].
     - subst bd. pose proof (depthZ_nonneg d) as Hn.
       assert (E : (-1 <? depthZ d)%Z = true) by (apply Z.ltb_lt; lia). rewrite E.
-      apply IH; [exact Hk2|exact Ht2|]. cbn [loop_inv]. split; [reflexivity|exact Ec].
+      apply IH; [exact Ht2|]. cbn [loop_inv]. split; [reflexivity|exact Ec].
   Qed.
 
   Lemma find_matching_rule_spec q c p :
-    prefix_ok q c p = true -> depth_ok q c = true ->
+    depth_ok q c = true ->
     find_matching_rule q p (dirs_of c) = spec_rule p (dirs_of c).
   Proof.
-    intros H Ht. unfold find_matching_rule, spec_rule. apply find_loop_spec.
-    - unfold prefix_ok, no_bare_prefix in H. destruct (q_prefix_without_separator q); cbn [negb orb] in *.
-      + exact H.
-      + clear H Ht. induction (dirs_of c) as [|x l IHl]; [reflexivity|]. cbn [forallb]. exact IHl.
+    intros Ht. unfold find_matching_rule, spec_rule. apply find_loop_spec.
     - unfold depth_ok, no_trailing_slash in Ht. destruct (q_trailing_slash_depth q); cbn [negb orb] in *.
       + exact Ht.
-      + clear H Ht. induction (dirs_of c) as [|x l IHl]; [reflexivity|]. cbn [forallb]. exact IHl.
+      + clear Ht. induction (dirs_of c) as [|x l IHl]; [reflexivity|]. cbn [forallb]. exact IHl.
     - reflexivity.
   Qed.
 
@@ -328,12 +314,12 @@ Section Engine.
 
   (* ================================================================ 3. check_all_rules *)
   Lemma check_all_spec q c p :
-    cfg_ok c = true -> prefix_ok q c p = true -> depth_ok q c = true -> globals_ok q c p = true ->
+    cfg_ok c = true -> depth_ok q c = true -> globals_ok q c p = true ->
     check_all matches q p c = spec_report matches c p.
   Proof.
-    intros Hok Hp Ht Hg. unfold check_all. change fp_checker_keys with ["directories"; "global_deny"; "global_patterns"].
+    intros Hok Ht Hg. unfold check_all. change fp_checker_keys with ["directories"; "global_deny"; "global_patterns"].
     cbn [flat_map]. unfold part_by. cbn [String.eqb Ascii.eqb Bool.eqb andb]. rewrite app_nil_r.
-    unfold covered, dir_part. rewrite (find_matching_rule_spec q c p Hp Ht). unfold spec_report.
+    unfold covered, dir_part. rewrite (find_matching_rule_spec q c p Ht). unfold spec_report.
     destruct (spec_rule p (dirs_of c)) as [[d r]|] eqn:Es.
     - destruct (spec_rule_In p (dirs_of c) d r Es) as [Hin _].
       assert (Hd : String.eqb d "" = false).
@@ -381,16 +367,19 @@ Section Engine.
     rewrite (H x (or_introl eq_refl)). f_equal. apply IH. intros y Hy. apply H. right. exact Hy.
   Qed.
 
+  (* allow items written as dicts are unwrapped by validator and matcher (fix 423132c) *)
+  Lemma v_aitem_pattern q a : v_aitem valid q a = vpat valid (aitem_pattern a).
+  Proof.
+    destruct a as [p|p]; [reflexivity|]. cbn [v_aitem aitem_pattern]. change fp_allow_dict_supported with true.
+    cbn [negb]. rewrite andb_false_r. reflexivity.
+  Qed.
+
   Lemma v_rule_patterns q r :
-    negb (q_allow_dict_unsupported q) || rule_plain r = true ->
     v_rule valid q ["allow"; "deny"] r = first_invalid (rule_patterns r).
   Proof.
-    intros H. unfold v_rule, rule_patterns. cbn [fold_right String.eqb Ascii.eqb Bool.eqb andb].
+    unfold v_rule, rule_patterns. cbn [fold_right String.eqb Ascii.eqb Bool.eqb andb].
     rewrite vseq_ok_r, first_invalid_app. f_equal.
-    - apply (v_list_patterns (v_aitem valid q) aitem_pattern). intros a Ha. destruct a as [p|p]; [reflexivity|].
-      cbn [v_aitem]. destruct (q_allow_dict_unsupported q); [|reflexivity].
-      cbn [negb orb] in H. unfold rule_plain in H. destruct (r_allow r) as [xs|]; [|destruct Ha].
-      rewrite forallb_forall in H. specialize (H _ Ha). discriminate.
+    - apply (v_list_patterns (v_aitem valid q) aitem_pattern). intros a _. apply v_aitem_pattern.
     - apply (v_list_patterns (fun i => vpat valid (ditem_pattern i)) ditem_pattern). reflexivity.
   Qed.
 
@@ -401,27 +390,16 @@ Section Engine.
     ++ (match c_gdeny c with Some l => map ditem_pattern l | None => [] end).
 
   Lemma validate_first_invalid q c :
-    adict_ok q c = true -> validate valid q c = first_invalid (patterns_in_validation_order c).
+    validate valid q c = first_invalid (patterns_in_validation_order c).
   Proof.
-    intros H. unfold validate. change fp_validate_order with ["directories"; "global_patterns"; "global_deny"].
+    unfold validate. change fp_validate_order with ["directories"; "global_patterns"; "global_deny"].
     cbn [fold_right]. unfold v_block. cbn [String.eqb Ascii.eqb Bool.eqb andb]. rewrite vseq_ok_r.
     change fp_vdir_order with ["allow"; "deny"]. change fp_vgpat_order with ["allow"; "deny"].
     unfold patterns_in_validation_order. rewrite !first_invalid_app.
-    assert (Hd : negb (q_allow_dict_unsupported q) || forallb (fun dr => rule_plain (snd dr)) (dirs_of c) = true).
-    { unfold adict_ok, no_adict in H. destruct (q_allow_dict_unsupported q); cbn [negb orb] in *; [|reflexivity].
-      apply andb_true_iff in H. exact (proj1 H). }
-    assert (Hg : negb (q_allow_dict_unsupported q) || match c_gpat c with Some g => rule_plain g | None => true end = true).
-    { unfold adict_ok, no_adict in H. destruct (q_allow_dict_unsupported q); cbn [negb orb] in *; [|reflexivity].
-      apply andb_true_iff in H. exact (proj2 H). }
     f_equal; [|f_equal].
-    - clear Hg H. induction (dirs_of c) as [|dr l IH]; [reflexivity|]. cbn [fold_right flat_map].
-      rewrite first_invalid_app. cbn [forallb] in Hd.
-      assert (H1 : negb (q_allow_dict_unsupported q) || rule_plain (snd dr) = true)
-        by (destruct (q_allow_dict_unsupported q); cbn [negb orb] in *; [apply andb_true_iff in Hd; exact (proj1 Hd)|reflexivity]).
-      assert (H2 : negb (q_allow_dict_unsupported q) || forallb (fun dr => rule_plain (snd dr)) l = true)
-        by (destruct (q_allow_dict_unsupported q); cbn [negb orb] in *; [apply andb_true_iff in Hd; exact (proj2 Hd)|reflexivity]).
-      rewrite (v_rule_patterns q (snd dr) H1), (IH H2). reflexivity.
-    - destruct (c_gpat c) as [g|]; [|reflexivity]. apply v_rule_patterns. exact Hg.
+    - induction (dirs_of c) as [|dr l IH]; [reflexivity|]. cbn [fold_right flat_map].
+      rewrite first_invalid_app, (v_rule_patterns q (snd dr)), IH. reflexivity.
+    - destruct (c_gpat c) as [g|]; [|reflexivity]. apply v_rule_patterns.
     - apply (v_list_patterns (fun i => vpat valid (ditem_pattern i)) ditem_pattern). reflexivity.
   Qed.
 
@@ -452,65 +430,55 @@ Section Engine.
   Qed.
 
   (* ================================================================ 5. the whole run *)
-  Lemma eff_path_relpath q f : cwd_ok q f = true -> eff_path q f = relpath f.
+  (* relative paths are resolved and re-expressed relative to the project root (fix 12368d4) *)
+  Lemma eff_path_relpath q f : eff_path q f = relpath f.
   Proof.
-    unfold cwd_ok, eff_path, presented_from_root, relpath.
-    destruct (q_path_relative_to_cwd q); cbn [negb orb andb]; [|reflexivity].
-    destruct (f_relative f); cbn [negb orb]; [|reflexivity]. intros H. rewrite H. reflexivity.
+    unfold eff_path. change fp_relative_resolved with true. cbn [negb]. rewrite andb_false_r. reflexivity.
   Qed.
 
-  (* the general statement: every quirk is either off or cannot bear on the input *)
+  (* the general statement: each remaining quirk is either off or cannot bear on the input *)
   Theorem run_spec_general q c f :
     cfg_ok c = true ->
-    adict_ok q c = true -> cwd_ok q f = true ->
-    prefix_ok q c (relpath f) = true -> depth_ok q c = true -> globals_ok q c (relpath f) = true ->
+    depth_ok q c = true -> globals_ok q c (relpath f) = true ->
     forget (run valid matches q c f) = spec valid matches c f.
   Proof.
-    intros Hok Ha Hc Hp Ht Hg. unfold run, spec. rewrite (validate_first_invalid q c Ha), <- forallb_validation_order.
+    intros Hok Ht Hg. unfold run, spec. rewrite (validate_first_invalid q c), <- forallb_validation_order.
     destruct (first_invalid_cases (patterns_in_validation_order c)) as [[E1 E2]|[p [E1 [_ [_ E4]]]]].
-    - rewrite E1, E2. cbn [forget]. rewrite (eff_path_relpath q f Hc). f_equal. apply check_all_spec; assumption.
+    - rewrite E1, E2. cbn [forget]. rewrite (eff_path_relpath q f). f_equal. apply check_all_spec; assumption.
     - rewrite E1, E4. reflexivity.
   Qed.
 
-  (* main theorem: with the four quirks off the model is the specification, for every configuration with
+  (* main theorem: with the two remaining quirks off the model - whose prefix test, allow-item handling and
+     path resolution are the ones found in the source - is the specification, for every configuration with
      non-empty directory keys, every file and every regex engine *)
   Theorem run_exact q c f :
-    q_global_on_covered q = false -> q_prefix_without_separator q = false ->
-    q_path_relative_to_cwd q = false -> q_allow_dict_unsupported q = false -> q_trailing_slash_depth q = false ->
+    q_global_on_covered q = false -> q_trailing_slash_depth q = false ->
     cfg_ok c = true ->
     forget (run valid matches q c f) = spec valid matches c f.
   Proof.
-    intros H1 H2 H3 H4 H5 Hok. apply run_spec_general; [exact Hok| | | | |].
-    - unfold adict_ok. now rewrite H4.
-    - unfold cwd_ok. now rewrite H3.
-    - unfold prefix_ok. now rewrite H2.
+    intros H1 H5 Hok. apply run_spec_general; [exact Hok| |].
     - unfold depth_ok. now rewrite H5.
     - unfold globals_ok. now rewrite H1.
   Qed.
 
   Theorem report_exact q c p :
-    q_global_on_covered q = false -> q_prefix_without_separator q = false -> q_trailing_slash_depth q = false ->
+    q_global_on_covered q = false -> q_trailing_slash_depth q = false ->
     cfg_ok c = true ->
     check_all matches q p c = spec_report matches c p.
   Proof.
-    intros H1 H2 H5 Hok. apply check_all_spec; [exact Hok| | |].
-    - unfold prefix_ok. now rewrite H2.
+    intros H1 H5 Hok. apply check_all_spec; [exact Hok| |].
     - unfold depth_ok. now rewrite H5.
     - unfold globals_ok. now rewrite H1.
   Qed.
 
-  (* confinement: the faithful model (any flags on) is exact outside the four defect classes *)
+  (* confinement: the faithful model (both remaining flags on) is exact outside the two defect classes *)
   Theorem run_exact_outside_defects q c f :
     cfg_ok c = true ->
-    no_adict c = true -> presented_from_root f = true -> no_bare_prefix c (relpath f) = true ->
     no_trailing_slash c = true ->
     (spec_rule (relpath f) (dirs_of c) = None \/ (c_gdeny c = None /\ c_gpat c = None)) ->
     forget (run valid matches q c f) = spec valid matches c f.
   Proof.
-    intros Hok Ha Hc Hp Ht Hg. apply run_spec_general; [exact Hok| | | | |].
-    - unfold adict_ok. rewrite Ha. apply orb_true_r.
-    - unfold cwd_ok. rewrite Hc. apply orb_true_r.
-    - unfold prefix_ok. rewrite Hp. apply orb_true_r.
+    intros Hok Ht Hg. apply run_spec_general; [exact Hok| |].
     - unfold depth_ok. rewrite Ht. apply orb_true_r.
     - unfold globals_ok. destruct Hg as [E|[E1 E2]].
       + rewrite E. apply orb_true_r.
@@ -555,18 +523,18 @@ Section Engine.
 
   (* deny takes precedence over allow: a matching deny pattern decides, whatever the allow list says *)
   Theorem deny_precedence q c p d r i :
-    q_global_on_covered q = false -> q_prefix_without_separator q = false -> q_trailing_slash_depth q = false ->
+    q_global_on_covered q = false -> q_trailing_slash_depth q = false ->
     cfg_ok c = true ->
     spec_rule p (dirs_of c) = Some (d, r) -> spec_denied matches p (r_deny r) = Some i ->
     check_all matches q p c = [(p, 1, 0, spec_dir_deny_msg p d (spec_reason i))].
   Proof.
-    intros H1 H2 H5 Hok Hs Hd. rewrite (report_exact q c p H1 H2 H5 Hok). unfold spec_report. rewrite Hs.
+    intros H1 H5 Hok Hs Hd. rewrite (report_exact q c p H1 H5 Hok). unfold spec_report. rewrite Hs.
     unfold spec_judge. rewrite Hd. reflexivity.
   Qed.
 
   (* files satisfying all applicable rules are never reported *)
   Theorem satisfying_not_reported q c p :
-    q_global_on_covered q = false -> q_prefix_without_separator q = false -> q_trailing_slash_depth q = false ->
+    q_global_on_covered q = false -> q_trailing_slash_depth q = false ->
     cfg_ok c = true ->
     match spec_rule p (dirs_of c) with
     | Some (_, r) => violates p r
@@ -575,7 +543,7 @@ Section Engine.
     end = false ->
     check_all matches q p c = [].
   Proof.
-    intros H1 H2 H5 Hok Hv. rewrite (report_exact q c p H1 H2 H5 Hok). rewrite <- verdict_iff in Hv.
+    intros H1 H5 Hok Hv. rewrite (report_exact q c p H1 H5 Hok). rewrite <- verdict_iff in Hv.
     destruct (spec_report matches c p); [reflexivity|discriminate].
   Qed.
 
@@ -590,25 +558,22 @@ Section Engine.
 
   (* the verdict depends only on the path relative to the project root *)
   Theorem verdict_depends_on_relpath_only q c f1 f2 :
-    q_global_on_covered q = false -> q_prefix_without_separator q = false ->
-    q_path_relative_to_cwd q = false -> q_allow_dict_unsupported q = false -> q_trailing_slash_depth q = false ->
+    q_global_on_covered q = false -> q_trailing_slash_depth q = false ->
     cfg_ok c = true ->
     relpath f1 = relpath f2 ->
     forget (run valid matches q c f1) = forget (run valid matches q c f2).
   Proof.
-    intros H1 H2 H3 H4 H5 Hok E. rewrite !run_exact by assumption. unfold spec. rewrite E. reflexivity.
+    intros H1 H5 Hok E. rewrite !run_exact by assumption. unfold spec. rewrite E. reflexivity.
   Qed.
 
   (* a syntactically invalid pattern anywhere in the configuration is rejected, naming an invalid pattern;
      a configuration of valid patterns is accepted *)
   Theorem invalid_pattern_rejected q c f :
-    q_allow_dict_unsupported q = false ->
     (forallb valid (all_patterns c) = true -> exists l, run valid matches q c f = Reports l) /\
     (forallb valid (all_patterns c) = false ->
      exists p, run valid matches q c f = Rejected p /\ In p (all_patterns c) /\ valid p = false).
   Proof.
-    intros H4. assert (Ha : adict_ok q c = true) by (unfold adict_ok; now rewrite H4).
-    unfold run. rewrite (validate_first_invalid q c Ha), <- forallb_validation_order.
+    unfold run. rewrite (validate_first_invalid q c), <- forallb_validation_order.
     destruct (first_invalid_cases (patterns_in_validation_order c)) as [[E1 E2]|[p [E1 [E2 [E3 E4]]]]]; rewrite E1.
     - split; [intros _; eexists; reflexivity|intros H; congruence].
     - split; [intros H; congruence|]. intros _. exists p. split; [reflexivity|]. split; [apply in_validation_order; exact E2|exact E3].
